@@ -1921,6 +1921,19 @@ package gocql
 //@   loop 0: step listInfo.proto <= 2 ==> len(buf.buf) == prev(len(buf.buf)) + 2 + len(Marshal_ret0) && be16(buf.buf, prev(len(buf.buf))) == uint16(len(Marshal_ret0))
 //@   loop 0: step forall(k, 0 <= k && k < prev(len(buf.buf)), buf.buf[k] == prev(buf.buf[k]))
 
+// map framing: after the entry count, every entry is its key and then its value, each as a length ([int] from
+// protocol 3 with -1 exactly for a null - not for an empty - item, [short] before) followed by the bytes.
+//@ func marshalMap
+//@   props C12 C02
+//@   count_calls Marshal writeCollectionSize
+//@   requires info != nil
+//@   assume typeis(info, CollectionType) ==> unbox(info, CollectionType).Elem != nil && unbox(info, CollectionType).Key != nil
+//@   loop 0: invariant buf != nil
+// per entry: the key is marshalled and framed, then its value; the length written is -1 exactly for a null item
+// from protocol 3 on, else the item's length (the byte layout of one frame is writeCollectionSize's, proved above)
+//@   loop 0: step Marshal_calls == prev(Marshal_calls) + 2 && writeCollectionSize_calls == prev(writeCollectionSize_calls) + 2
+//@   before[C12,C02] writeCollectionSize: in_loop == 0 ==> arg0 == mapInfo && arg2 == buf && same(item, Marshal_ret0) && (arg1 == -1) == (item == nil && mapInfo.proto > 2) && (arg1 != -1 ==> arg1 == len(item))
+
 // ---------------------------------------------------------------------------
 // policies.go (C11): host selection. roundRobbin returns an iterator (closure) over
 // tiers of hosts; its state is the pair (currentLayer, currentlyObserved). Every call
